@@ -15,6 +15,8 @@ func init() {
 		ID: "C15",
 		Rules: []Rule{
 			{"FAILURE-RECORDED", ruleFailureRecorded},
+			{"KEY-KIND-PAIRING", ruleKeyKindPairing},
+			{"TXN-AFTER-LOCK", ruleTxnAfterLock},
 			{"RETRY-LOOP", ruleRetryLoop},
 			{"USE-AFTER-ERR", func(c *eng.Ctx) { ruleUseAfterErrNet(c) }},
 			{"PUSH-ON-UPDATE", rulePushOnUpdate},
